@@ -20,25 +20,25 @@ network error (the fake pool's assumptions are listed in the evidence).
 namespace HailVerif.C27
 open HailVerif.TxRetry
 
-variable {σ W : Type} (step : σ → W → Except Err σ) (db : σ) (body : List (Bool × W))
+variable {σ W : Type} (step : σ → W → Except Err σ) (handler : W → Err → Err) (db : σ) (body : List (Bool × W))
 
 /-- An attempt that fails with `e` is followed by another attempt exactly when `e` is classified retryable. -/
 theorem retries_iff_retryable (f : Option (Nat × Err)) (fs : List (Option (Nat × Err))) (e : Err) (db' : σ)
-    (h : attempt step db body f = (db', some e)) :
-    2 ≤ (run step db body (f :: fs)).attempts ↔ retryable e = true := by
+    (h : attempt step handler db body f = (db', some e)) :
+    2 ≤ (run step handler db body (f :: fs)).attempts ↔ retryable e = true := by
   unfold run
   simp only [runFrom, h]
   by_cases hr : retryable e = true
   · simp only [hr, if_true, iff_true]
-    have := attempts_runFrom_ge step db' body fs 1
+    have := attempts_runFrom_ge step handler db' body fs 1
     omega
   · simp [hr]
 
 /-- A retryable failure restarts the whole operation on the untouched database. -/
 theorem retried_transient (f : Option (Nat × Err)) (fs : List (Option (Nat × Err))) (e : Err) (db' : σ)
-    (h : attempt step db body f = (db', some e)) (hr : retryable e = true) :
-    run step db body (f :: fs) = runFrom step 1 db body fs := by
-  have hdb := attempt_err_retryable step db db' body f e h hr
+    (h : attempt step handler db body f = (db', some e)) (hr : retryable e = true) :
+    run step handler db body (f :: fs) = runFrom step handler 1 db body fs := by
+  have hdb := attempt_err_retryable step handler db db' body f e h hr
   subst hdb
   unfold run
   simp [runFrom, h, hr]
@@ -47,10 +47,10 @@ theorem retried_transient (f : Option (Nat × Err)) (fs : List (Option (Nat × E
 it found it, `attempt_err`), the wrapper keeps going and the outcome is that of the next attempt, reached after exactly that many
 retries. -/
 theorem retries_unbounded (fs rest : List (Option (Nat × Err)))
-    (h : ∀ f ∈ fs, ∃ e, attempt step db body f = (db, some e) ∧ retryable e = true) :
-    run step db body (fs ++ rest) = runFrom step fs.length db body rest := by
+    (h : ∀ f ∈ fs, ∃ e, attempt step handler db body f = (db, some e) ∧ retryable e = true) :
+    run step handler db body (fs ++ rest) = runFrom step handler fs.length db body rest := by
   unfold run
-  suffices hs : ∀ n, runFrom step n db body (fs ++ rest) = runFrom step (n + fs.length) db body rest by simpa using hs 0
+  suffices hs : ∀ n, runFrom step handler n db body (fs ++ rest) = runFrom step handler (n + fs.length) db body rest by simpa using hs 0
   induction fs with
   | nil => intro n; simp
   | cons f fs ih =>
@@ -64,10 +64,10 @@ theorem retries_unbounded (fs rest : List (Option (Nat × Err)))
 /-- Any other failure is re-raised at once: one attempt, the error of that attempt, the database untouched (`he`: the failure is
 not a cancellation; for that case see `cancelled_all_or_nothing`). -/
 theorem gives_up_on_other (f : Option (Nat × Err)) (fs : List (Option (Nat × Err))) (e : Err) (db' : σ)
-    (h : attempt step db body f = (db', some e)) (hr : retryable e = false) (he : e ≠ cancelled) :
-    run step db body (f :: fs) = ⟨db, some e, 1⟩ := by
+    (h : attempt step handler db body f = (db', some e)) (hr : retryable e = false) (he : e ≠ cancelled) :
+    run step handler db body (f :: fs) = ⟨db, some e, 1⟩ := by
   have hdb : db' = db := by
-    rcases attempt_err step db db' body f e h with h1 | ⟨h1, _⟩
+    rcases attempt_err step handler db db' body f e h with h1 | ⟨h1, _⟩
     · exact h1
     · exact absurd h1 he
   subst hdb
@@ -78,11 +78,11 @@ theorem gives_up_on_other (f : Option (Nat × Err)) (fs : List (Option (Nat × E
 is all or nothing: the database is untouched, unless the cancellation arrived while the COMMIT was already in flight — then the
 shielded commit completes and the whole body is applied.  Never a part of the body. -/
 theorem cancelled_all_or_nothing (f : Option (Nat × Err)) (fs : List (Option (Nat × Err))) (e : Err) (db' : σ)
-    (h : attempt step db body f = (db', some e)) (hb : e.cls = .base) :
-    run step db body (f :: fs) = ⟨db', some e, 1⟩ ∧ (db' = db ∨ exec step db body none = .ok db') := by
+    (h : attempt step handler db body f = (db', some e)) (hb : e.cls = .base) :
+    run step handler db body (f :: fs) = ⟨db', some e, 1⟩ ∧ (db' = db ∨ exec step handler db body none = .ok db') := by
   have hr : retryable e = false := by obtain ⟨c, n⟩ := e; simp only at hb; subst hb; rfl
   refine ⟨by unfold run; simp [runFrom, h, hr], ?_⟩
-  rcases attempt_err step db db' body f e h with h1 | ⟨_, h2⟩
+  rcases attempt_err step handler db db' body f e h with h1 | ⟨_, h2⟩
   · exact Or.inl h1
   · exact Or.inr h2
 
@@ -91,10 +91,10 @@ theorem cancelled_all_or_nothing (f : Option (Nat × Err)) (fs : List (Option (N
 attempt that committed), or the initial database itself when the operation gave up — the only failure that can leave the body
 applied is a cancellation that arrived after the COMMIT was sent. -/
 theorem no_partial_writes (scripts : List (Option (Nat × Err))) :
-    ((run step db body scripts).error = none → exec step db body none = .ok (run step db body scripts).db) ∧
-    (∀ e, (run step db body scripts).error = some e → (run step db body scripts).db = db ∨
-      (e = cancelled ∧ exec step db body none = .ok (run step db body scripts).db)) :=
-  runFrom_spec step db body scripts 0
+    ((run step handler db body scripts).error = none → exec step handler db body none = .ok (run step handler db body scripts).db) ∧
+    (∀ e, (run step handler db body scripts).error = some e → (run step handler db body scripts).db = db ∨
+      (e = cancelled ∧ exec step handler db body none = .ok (run step handler db body scripts).db)) :=
+  runFrom_spec step handler db body scripts 0
 
 /-- An error raised by an instrumented statement (one issued with a `query_name`) leaves the metrics timer unchanged: the
 timer's `__aexit__` does not suppress it, so it reaches `Transaction._aexit` (rollback) and the retry wrapper. -/
@@ -103,7 +103,7 @@ theorem instrumented_error_propagates (cur : σ) (e : Err) : timed true cur (.er
 
 /-- Instrumentation is transparent: an attempt behaves the same whichever of its statements carry a `query_name`. -/
 theorem query_name_transparent (f : Option (Nat × Err)) :
-    ∀ cur : σ, exec step cur body f = exec step cur (body.map fun p => (false, p.2)) f := by
+    ∀ cur : σ, exec step handler cur body f = exec step handler cur (body.map fun p => (false, p.2)) f := by
   induction body generalizing f with
   | nil => intro cur; rfl
   | cons p ps ih =>
@@ -127,18 +127,18 @@ theorem query_name_transparent (f : Option (Nat × Err)) :
 
 /-- … hence so does the whole retried operation. -/
 theorem run_query_name_transparent (scripts : List (Option (Nat × Err))) :
-    run step db body scripts = run step db (body.map fun p => (false, p.2)) scripts := by
-  have hatt : ∀ (d : σ) f, attempt step d body f = attempt step d (body.map fun p => (false, p.2)) f := by
+    run step handler db body scripts = run step handler db (body.map fun p => (false, p.2)) scripts := by
+  have hatt : ∀ (d : σ) f, attempt step handler d body f = attempt step handler d (body.map fun p => (false, p.2)) f := by
     intro d f
     simp only [attempt, Conn.begin, List.length_map]
-    rw [query_name_transparent step body f d, query_name_transparent step body none d]
+    rw [query_name_transparent step handler body f d, query_name_transparent step handler body none d]
   unfold run
   generalize 0 = n
   induction scripts generalizing n db with
   | nil => simp only [runFrom, hatt]
   | cons f fs ih =>
     simp only [runFrom, hatt]
-    generalize attempt step db (body.map fun p => (false, p.2)) f = a
+    generalize attempt step handler db (body.map fun p => (false, p.2)) f = a
     obtain ⟨db', err⟩ := a
     cases err with
     | none => rfl
@@ -146,6 +146,13 @@ theorem run_query_name_transparent (scripts : List (Option (Nat × Err))) :
       by_cases hr : retryable e = true
       · simp only [hr, if_true]; exact ih db' (n + 1)
       · simp [hr]
+
+/-- The wrapper classifies the exception that escapes the body, not what caused it: when the body catches a statement's MySQL
+error and raises its own application error (with or without `from e`), that error is "any other error" and is not retried,
+even if the MySQL error behind it was transient. -/
+theorem app_error_not_retried (s : KV.Stmt) (e : Err) (h : KV.isMySQLError e = true) :
+    retryable (KV.handler (.guarded true s) e) = false := by
+  simp [KV.handler, h, KV.appError, retryable]
 
 /-- The classifier retries exactly the transient conditions the property names … -/
 theorem only_transient_retried (e : Err) (h : retryable e = true) : e.code ∈ transientCodes := by
@@ -172,49 +179,57 @@ theorem other_errors_not_retried :
 /-! Non-vacuity on the concrete key/value database of the correspondence check. -/
 open KV in
 -- deadlock at the 2nd statement, then lock wait timeout at COMMIT, then a clean attempt: 3 attempts, all writes once
-example : (run KV.step [(1, 5)] [(false, .upsert 1 2), (true, .upsert 7 1), (true, .update 1 10)]
+example : (run KV.step KV.handler [(1, 5)] [(false, .upsert 1 2), (true, .upsert 7 1), (true, .update 1 10)]
       [some (1, ⟨.operational, 1213⟩), some (3, ⟨.operational, 1205⟩)]).attempts = 3 := by decide
 open KV in
-example : (run KV.step [(1, 5)] [(false, .upsert 1 2), (true, .upsert 7 1), (true, .update 1 10)]
+example : (run KV.step KV.handler [(1, 5)] [(false, .upsert 1 2), (true, .upsert 7 1), (true, .update 1 10)]
       [some (1, ⟨.operational, 1213⟩), some (3, ⟨.operational, 1205⟩)]).db = [(1, 17), (7, 1)] := by decide
 open KV in
 -- a syntax error at the 3rd statement after two writes: gives up, nothing written
-example : run KV.step [(1, 5)] [(false, .upsert 1 2), (true, .upsert 7 1), (true, .update 1 10)] [some (2, ⟨.programming, 1064⟩)]
+example : run KV.step KV.handler [(1, 5)] [(false, .upsert 1 2), (true, .upsert 7 1), (true, .update 1 10)] [some (2, ⟨.programming, 1064⟩)]
     = ⟨[(1, 5)], some ⟨.programming, 1064⟩, 1⟩ := by decide
 open KV in
 -- a statement failing by itself (duplicate key) after a write: gives up, nothing written
-example : run KV.step [(1, 5)] [(true, .upsert 2 2), (false, .insert 1 0)] [] = ⟨[(1, 5)], some ⟨.integrity, 1062⟩, 1⟩ := by decide
+example : run KV.step KV.handler [(1, 5)] [(true, .upsert 2 2), (false, .insert 1 0)] [] = ⟨[(1, 5)], some ⟨.integrity, 1062⟩, 1⟩ := by decide
 open KV in
 -- a fault index beyond the COMMIT never fires
-example : run KV.step [] [(false, .upsert 2 2)] [some (9, ⟨.operational, 1213⟩)] = ⟨[(2, 2)], none, 1⟩ := by decide
+example : run KV.step KV.handler [] [(false, .upsert 2 2)] [some (9, ⟨.operational, 1213⟩)] = ⟨[(2, 2)], none, 1⟩ := by decide
 open KV in
 -- a deadlock raised by an instrumented statement (issued with a query_name) is retried like any other: 2 attempts, writes once
-example : run KV.step [(1, 5)] [(true, .update 1 1), (true, .select 1), (true, .upsert 2 3)] [some (2, ⟨.operational, 1213⟩)]
+example : run KV.step KV.handler [(1, 5)] [(true, .update 1 1), (true, .select 1), (true, .upsert 2 3)] [some (2, ⟨.operational, 1213⟩)]
     = ⟨[(1, 6), (2, 3)], none, 2⟩ := by decide
 open KV in
 -- a non-transient error raised by an instrumented statement after a write: raised to the caller, nothing written
-example : run KV.step [(1, 5)] [(true, .update 1 1), (true, .upsert 2 3)] [some (1, ⟨.operational, 1054⟩)]
+example : run KV.step KV.handler [(1, 5)] [(true, .update 1 1), (true, .upsert 2 3)] [some (1, ⟨.operational, 1054⟩)]
     = ⟨[(1, 5)], some ⟨.operational, 1054⟩, 1⟩ := by decide
 open KV in
 -- a 5-row execute_many is one statement of one transaction: a deadlock at its COMMIT retries the whole call, every row applied once
-example : run KV.step [(1, 1)] [(false, .nop), (false, .nop), (true, .upsertMany 1 2 5)] [some (3, ⟨.operational, 1213⟩)]
+example : run KV.step KV.handler [(1, 1)] [(false, .nop), (false, .nop), (true, .upsertMany 1 2 5)] [some (3, ⟨.operational, 1213⟩)]
     = ⟨[(1, 7), (2, 4)], none, 2⟩ := by decide
 open KV in
 -- twelve consecutive deadlocks at the same statement, then a clean attempt: 13 attempts, the write applied once
-example : run KV.step [(1, 5)] [(false, .nop), (false, .nop), (true, .update 1 10)] (List.replicate 12 (some (2, ⟨.operational, 1213⟩)))
+example : run KV.step KV.handler [(1, 5)] [(false, .nop), (false, .nop), (true, .update 1 10)] (List.replicate 12 (some (2, ⟨.operational, 1213⟩)))
     = ⟨[(1, 15)], none, 13⟩ := by decide
 open KV in
 -- the task is cancelled while the 2nd write is in flight, after the 1st write executed: rolled back, not retried, nothing written
-example : run KV.step [(1, 5)] [(false, .nop), (false, .nop), (false, .update 1 1), (true, .upsert 2 3)] [some (3, cancelled), none]
+example : run KV.step KV.handler [(1, 5)] [(false, .nop), (false, .nop), (false, .update 1 1), (true, .upsert 2 3)] [some (3, cancelled), none]
     = ⟨[(1, 5)], some cancelled, 1⟩ := by decide
 open KV in
 -- cancelled while the COMMIT is in flight: `asyncio.shield` lets the commit complete, the caller still sees CancelledError
-example : run KV.step [(1, 5)] [(false, .nop), (false, .nop), (false, .update 1 1), (true, .upsert 2 3)] [some (4, cancelled)]
+example : run KV.step KV.handler [(1, 5)] [(false, .nop), (false, .nop), (false, .update 1 1), (true, .upsert 2 3)] [some (4, cancelled)]
     = ⟨[(1, 6), (2, 3)], some cancelled, 1⟩ := by decide
 open KV in
 -- a BaseException raised by conn.commit() itself is a failed commit: nothing written
-example : run KV.step [(1, 5)] [(false, .nop), (false, .nop), (false, .update 1 1)] [some (3, ⟨.base, 1⟩)]
+example : run KV.step KV.handler [(1, 5)] [(false, .nop), (false, .nop), (false, .update 1 1)] [some (3, ⟨.base, 1⟩)]
     = ⟨[(1, 5)], some ⟨.base, 1⟩, 1⟩ := by decide
+open KV in
+-- a deadlock at a statement whose MySQL errors the body turns into its own error (`raise AppError() from e`): one attempt, rolled
+-- back, the application error reaches the caller; the same fault at a statement that re-raises is retried
+example : run KV.step KV.handler [(1, 5)] [(false, .nop), (false, .nop), (false, .update 1 1), (true, .guarded true (.upsert 2 3))]
+    [some (3, ⟨.operational, 1213⟩)] = ⟨[(1, 5)], some appError, 1⟩ := by decide
+open KV in
+example : run KV.step KV.handler [(1, 5)] [(false, .nop), (false, .nop), (false, .update 1 1), (true, .guarded false (.upsert 2 3))]
+    [some (3, ⟨.operational, 1213⟩)] = ⟨[(1, 6), (2, 3)], none, 2⟩ := by decide
 example : pymysqlClass 1205 = .operational ∧ pymysqlClass 1213 = .operational ∧ pymysqlClass 2013 = .operational := by decide
 
 end HailVerif.C27
